@@ -130,19 +130,73 @@ theorem sortQByName_eq_nil (l : List QueryMatcher) : sortQByName l = [] ↔ l = 
       simp at hall
   · intro h; subst h; rfl
 
+theorem entries_nonempty (inv : Bool) (f : String × StringMatch → HeaderMatcher) (l : List (String × StringMatch))
+    (h : l ≠ []) : (l.filter (fun e => !isClaimKey e)).map f ≠ [] ∨ claimMatchers inv l ≠ [] := by
+  cases l with
+  | nil => exact absurd rfl h
+  | cons e es =>
+    cases hc : claimPath e.1 with
+    | none => left; simp [List.filter_cons, isClaimKey, hc]
+    | some p => right; rw [claimMatchers_cons_some inv e es p hc]; simp
+
 /-- Source-level catch-all test = `IsCatchAllRoute` on the translated route. -/
 theorem srcCatchAll_correct (sem : Semantics) (m : HTTPMatch) (hp : prefixOK sem m = true) :
     isCatchAll { name := "", «match» := translateRouteMatch sem (some m), action := .none } = srcCatchAll m := by
+  by_cases hne : m.headers = [] ∧ m.withoutHeaders = []
+  case neg =>
+    -- some `headers` / `withoutHeaders` entry: a header matcher or a metadata matcher is emitted
+    have hr : srcCatchAll m = false := by
+      unfold srcCatchAll
+      by_cases h1 : m.headers = []
+      · have h2 : m.withoutHeaders ≠ [] := fun h2 => hne ⟨h1, h2⟩
+        cases hw : m.withoutHeaders with
+        | nil => exact absurd hw h2
+        | cons x xs => simp
+      · cases hh : m.headers with
+        | nil => exact absurd hh h1
+        | cons x xs => simp
+    rw [hr]
+    unfold isCatchAll
+    simp only [translateRouteMatch]
+    have hdisj : (sortByName (((sortEntries m.headers).filter (fun e => !isClaimKey e)).map (fun e => translateHeaderMatch e.1 e.2)
+          ++ ((sortEntries m.withoutHeaders).filter (fun e => !isClaimKey e)).map (fun e => translateWithoutHeader e.1 e.2))
+          ++ pseudoHeader ":method" m.method ++ pseudoHeader ":authority" m.authority ++ pseudoHeader ":scheme" m.scheme).isEmpty = false
+        ∨ (claimMatchers false (sortEntries m.headers) ++ claimMatchers true (sortEntries m.withoutHeaders)).isEmpty = false := by
+      by_cases h1 : m.headers = []
+      · have h2 : sortEntries m.withoutHeaders ≠ [] := fun h2 => hne ⟨h1, (sortEntries_eq_nil _).mp h2⟩
+        rcases entries_nonempty true (fun e => translateWithoutHeader e.1 e.2) _ h2 with h | h
+        · left
+          rw [Bool.eq_false_iff]
+          intro hx
+          simp only [List.isEmpty_iff, List.append_eq_nil_iff, sortByName_eq_nil] at hx
+          exact h hx.1.1.1.2
+        · right
+          rw [Bool.eq_false_iff]
+          intro hx
+          simp only [List.isEmpty_iff, List.append_eq_nil_iff] at hx
+          exact h hx.2
+      · have h2 : sortEntries m.headers ≠ [] := fun h2 => h1 ((sortEntries_eq_nil _).mp h2)
+        rcases entries_nonempty false (fun e => translateHeaderMatch e.1 e.2) _ h2 with h | h
+        · left
+          rw [Bool.eq_false_iff]
+          intro hx
+          simp only [List.isEmpty_iff, List.append_eq_nil_iff, sortByName_eq_nil] at hx
+          exact h hx.1.1.1.1
+        · right
+          rw [Bool.eq_false_iff]
+          intro hx
+          simp only [List.isEmpty_iff, List.append_eq_nil_iff] at hx
+          exact h hx.1
+    rcases hdisj with h | h
+    · rw [h]; simp
+    · rw [h]; simp
+  obtain ⟨hh1, hh2⟩ := hne
   have hpath := translate_no_pathSepRoot sem m hp
   unfold isCatchAll srcCatchAll
-  simp only [translateRouteMatch] at hpath ⊢
-  have hhead : (sortByName (m.headers.map (fun e => translateHeaderMatch e.1 e.2)
-        ++ m.withoutHeaders.map (fun e => translateWithoutHeader e.1 e.2))
-        ++ pseudoHeader ":method" m.method ++ pseudoHeader ":authority" m.authority ++ pseudoHeader ":scheme" m.scheme).isEmpty
-      = (m.headers.isEmpty && m.withoutHeaders.isEmpty && m.method.isNone && m.authority.isNone && m.scheme.isNone) := by
-    rw [Bool.eq_iff_iff]
-    simp only [List.isEmpty_iff, List.append_eq_nil_iff, sortByName_eq_nil, List.map_eq_nil_iff, Bool.and_eq_true,
-      Option.isNone_iff_eq_none]
+  simp only [translateRouteMatch, hh1, hh2, sortEntries, List.filter_nil, List.map_nil, List.append_nil, sortByName,
+    claimMatchers, List.filterMap_nil, List.isEmpty_nil, Bool.and_true, Bool.true_and, List.nil_append] at hpath ⊢
+  have hhead : (pseudoHeader ":method" m.method ++ pseudoHeader ":authority" m.authority ++ pseudoHeader ":scheme" m.scheme).isEmpty
+      = (m.method.isNone && m.authority.isNone && m.scheme.isNone) := by
     cases m.method <;> cases m.authority <;> cases m.scheme <;> simp [pseudoHeader]
   have hq : (sortQByName (m.queryParams.map (fun e => translateQueryMatch e.1 e.2))).isEmpty = m.queryParams.isEmpty := by
     rw [Bool.eq_iff_iff]
